@@ -92,4 +92,38 @@ pub(crate) mod verif_pe {
     fn pe_cutoff_agreement_gossip_earlier() {
         cutoff_agreement(true);
     }
+
+    /// C17/C07: two endpoints are found dead in the same poll (their Disconnected events are handled one
+    /// after the other, in either order - the order is the hash order of the endpoint map). The rollback
+    /// must start from the EARLIER of the two cut-offs whatever the order.
+    #[kani::proof]
+    #[kani::unwind(6)]
+    #[kani::stub(crate::network::protocol::millis_since_epoch, stub_millis)]
+    #[kani::stub(alloc::fmt::format, stub_format)]
+    fn pe_two_disconnects_one_poll() {
+        let mut s = mk_session_3peers(3, false);
+        let cur: Frame = kani::any();
+        kani::assume(cur >= 4 && cur < (1 << 20));
+        let l1: Frame = kani::any();
+        let l2: Frame = kani::any();
+        kani::assume(l1 >= cur - 4 && l1 < cur - 1 && l2 >= cur - 4 && l2 < cur - 1);
+        crate::sync_layer::verif_s::set_current_frame(&mut s.sync_layer, cur);
+        s.local_connect_status[0].last_frame = cur;
+        s.local_connect_status[1].last_frame = l1;
+        s.local_connect_status[2].last_frame = l2;
+        let first_is_8: bool = kani::any(); // iteration order of the endpoint map
+        if first_is_8 {
+            s.handle_event(Event::Disconnected, vec![1], 8);
+            s.handle_event(Event::Disconnected, vec![2], 9);
+        } else {
+            s.handle_event(Event::Disconnected, vec![2], 9);
+            s.handle_event(Event::Disconnected, vec![1], 8);
+        }
+        let earliest = if l1 < l2 { l1 } else { l2 };
+        assert!(s.local_connect_status[1].disconnected && s.local_connect_status[2].disconnected);
+        assert!(s.disconnect_frame == earliest + 1, "C17: resimulation starts at the earlier cut-off in either order");
+        kani::cover!(first_is_8 && l1 < l2, "the earlier cut-off is handled first");
+        kani::cover!(first_is_8 && l2 < l1, "the earlier cut-off is handled second");
+        core::mem::forget(s);
+    }
 }
